@@ -7,6 +7,7 @@
 import SeedProofs.Lemmas.Scan
 import SeedProofs.Lemmas.C18NodePosSrc
 import SeedProofs.Lemmas.C18EvalPosProg
+import SeedProofs.Lemmas.C18Attrib3
 namespace Seed.C18
 
 -- audit: Seed.node_pos Seed.node_pos_expr Seed.node_pos_src Seed.locOK_is_posOf Seed.posAll Seed.parseExpr_node_pos Seed.parseStmts_node_pos
@@ -384,3 +385,23 @@ example : (lexAll c!"s := \"ab\\x\n9\"\n").2.map (fun e => (e.loc, e.offender)) 
   decide +kernel
 
 end Seed.C18
+
+/-! ### which node's position each diagnostic carries (third session; `Lemmas/C18Attrib*.lean`)
+
+`eval_uses_node_pos` says that every position of a runtime diagnostic is SOME stored position; these theorems say WHICH.
+In the evaluator: a failing binary operation reports at the OPERATOR's position whatever its operands are
+(`binop_fail_at_opLoc`; in `a op1 b op2 c` a failing first operator reports at its own token and a failing second one at its
+own: `chain_inner_fails`, `chain_outer_fails`); op-assignment on a variable, element, key or property reports at the
+op-assignment token (`opAssign_*_fail_at_opLoc`); an undefined name, a call of a non-function, an arity mismatch, an index
+out of bounds, a missing property report at that node; a negative or non-int index at the INDEX EXPRESSION; a `break` /
+`continue` leaving a called function and any jump at top level at the KEYWORD (`break_escaping_call_at_keyword`, …,
+`top_level_*_at_keyword`), not at the call; a `for` over a non-iterable at the iterable; a non-bool condition at the
+condition; a non-int range bound at that bound.  On source text: `node_kw` / `kw_pos_src` (one more induction over the 22
+parser functions) — every stored operator, op-assignment and keyword position is the start of THAT token, and the source text
+there starts with its spelling (`TokIs.text`) — give `binop_fail_at_operator_text`, `chain_*_at_operator_text`,
+`top_level_*_at_keyword_text`, `break_escaping_call_at_keyword_text` (for functions declared by a `fn` statement of the
+program: `func_body_sub`; for arbitrary function cells the body must be code of the program, a hypothesis).  Slots are out of
+scope, as for `node_pos`. -/
+-- audit: Seed.C18A.applyBinOp_err_at Seed.C18A.binop_fail_at_opLoc Seed.C18A.binop_lhs_err Seed.C18A.binop_rhs_err Seed.C18A.chain_inner_fails Seed.C18A.chain_outer_fails Seed.C18A.opAssign_var_fail_at_opLoc Seed.C18A.opAssign_index_fail_at_opLoc Seed.C18A.opAssign_objIndex_fail_at_opLoc Seed.C18A.opAssign_prop_fail_at_opLoc Seed.C18A.undefined_var_at_loc Seed.C18A.call_non_func_at_loc Seed.C18A.call_arity_mismatch_at_loc Seed.C18A.index_list_oob_at_loc Seed.C18A.prop_missing_at_loc Seed.C18A.index_list_negative_at_index_expr_loc Seed.C18A.index_list_non_int_at_index_expr_loc
+-- audit: Seed.C18A.call_body_escape Seed.C18A.break_escaping_call_at_keyword Seed.C18A.continue_escaping_call_at_keyword Seed.C18A.prog_escape Seed.C18A.top_level_break_at_keyword Seed.C18A.top_level_continue_at_keyword Seed.C18A.top_level_return_at_keyword Seed.C18A.for_non_iterable_at_iter_loc Seed.C18A.while_non_bool_cond_at_cond_loc Seed.C18A.if_non_bool_cond_at_cond_loc Seed.C18A.range_end_non_int_at_end_loc Seed.C18A.range_start_non_int_at_start_loc
+-- audit: Seed.C18A.kwAll Seed.C18A.node_kw Seed.C18A.kw_pos_src Seed.C18A.binop_opLoc_is_operator_token Seed.C18A.opAssign_opLoc_is_opassign_token Seed.C18A.nextToken_text Seed.C18A.TokIs.text Seed.C18A.escAll Seed.C18A.stmts_escape_from_list Seed.C18A.binop_fail_at_operator_text Seed.C18A.chain_inner_fails_at_operator_text Seed.C18A.chain_outer_fails_at_operator_text Seed.C18A.opAssign_index_fail_at_operator_text Seed.C18A.top_level_break_at_keyword_text Seed.C18A.top_level_continue_at_keyword_text Seed.C18A.top_level_return_at_keyword_text Seed.C18A.break_escaping_call_at_keyword_text Seed.C18A.continue_escaping_call_at_keyword_text Seed.C18A.func_body_sub
